@@ -39,6 +39,12 @@ PLAN.update({
     "C15": {"quick": mon("c15", ("A",)), "thorough": mon("c15", ("A",))},
     "C16": {"quick": mon("c16", ("A",)), "thorough": mon("c16", ("A", "B"))},
     "C17": {"quick": mon("c17", ("A", "B")), "thorough": mon("c17", ("A", "B"))},
+    "C10": {
+        "quick": [hist("A", 800, 40), hist("B", 200, 20)] + mon("c10fp", ("A", "B")),
+        "thorough": [hist("A", 16000, 420), hist("B", 16000, 420)] + mon("c10fp", ("A", "B")),
+    },
+    "C14": {"quick": mon("c14", ("A",)), "thorough": mon("c14", ("A", "B"))},
+    "C19": {"quick": mon("c19", ("A",)), "thorough": mon("c19", ("A", "B"))},
 })
 
 LEVEL = {
@@ -191,6 +197,38 @@ RULES.update({
                 "(number of users, operation sequence) with >= 2 users and an unknown-id attempt.",
         "evaluation_counters": ["relations_checked", "unknown_id_refresh_attempts"],
         "min_evaluations": {"quick": 20000, "thorough": 200000},
+    },
+})
+
+RULES.update({
+    "C10": {
+        "rule": "(a) histories with 40% deliberately invalid arguments: after every call that returns an error the canonical "
+                "wire form of the master key (and the bytes of the user key) is compared with the snapshot taken before; "
+                "(b) failpoints: for update/rekey/keygen/refresh in random states, the fallible steps of the call are counted "
+                "on a twin state, then the call is re-run once per position k with the k-th step failing. Distinct non-trivial "
+                "= distinct (operation, error cause / failing-step position class, state description).",
+        "evaluation_counters": ["failed_call_state_unchanged", "injected_failures", "calls_err_as_documented"],
+        "min_evaluations": {"quick": 2000, "thorough": 20000},
+    },
+    "C14": {
+        "rule": "11 base objects (2 encapsulations, 2 headers, cleartext header, 2 user keys with 1-3 revisions, 2 public keys, "
+                "master key with revisions/disabled right/users, structure; both flavours, a non-ASCII dimension name): every "
+                "truncation; every byte x {^01,^80,00,FF,+1}; every LEB128 count/length/flag field (located by the independent "
+                "wire reader) x {0,1,127,128,2^16,2^32-1,2^32,2^63-1,2^63,2^64-1} re-encoded and in place; random strings; every "
+                "mutant that parses is used (decaps both ways, header decrypt, accessors, re-serialization). Run in isolated "
+                "worker processes with a counting allocator, an iterator-step ceiling and CPU clocks. Distinct non-trivial = "
+                "distinct (type, base, operator class) executed.",
+        "evaluation_counters": ["mutants_run"],
+        "min_evaluations": {"quick": 50000, "thorough": 200000},
+        "exhaustive": {"quick": False, "thorough": True},
+    },
+    "C19": {
+        "rule": "runs of 2/3/4/8/16 threads x ~2000 operations on one shared instance with seeded yields/sleeps before every "
+                "lock attempt; every result compared with its sequential meaning; cross-thread freshness sets; deadlock = no "
+                "call returns for 20 s while process CPU time stands still. Distinct non-trivial = distinct sequences of other "
+                "threads' lock attempts observed inside a double-lock window (encaps..relock of encrypt / header generate).",
+        "evaluation_counters": ["ops", "decaps_authorized_ok", "decaps_unauthorized_refused"],
+        "min_evaluations": {"quick": 10000, "thorough": 100000},
     },
 })
 
